@@ -92,6 +92,23 @@ class Ctx:
                                  (module, cfg, p.returncode, r['violated'], out[-3000:]))
         return r
 
+    def tlc_vectors(self, module, cfg, out='vectors.ndjson', timeout=900, workers=8, cfgtext=None, sample=2):
+        """Vector mode: every (initial) state of the module is one vector; TLC checks the module's
+        invariants on each and dumps them; they are rewritten as ndjson for the harness. Returns the count."""
+        from tools import tlaval
+        d = self.spec_dir()
+        dump = os.path.join(d, 'vec_%s' % re.sub(r'\W', '_', cfg))
+        self.tlc(module, cfg, args=['-dump', dump], timeout=timeout, workers=workers, cfgtext=cfgtext)
+        path = dump + '.dump' if os.path.exists(dump + '.dump') else dump
+        states = tlaval.parse_states_file(path)
+        os.remove(path)
+        with open(os.path.join(self.scratch, out), 'w') as f:
+            for st in states:
+                f.write(json.dumps(st, separators=(',', ':')) + '\n')
+        for st in states[:: max(1, len(states) // sample)][:sample]:
+            self.samples.append({'vector': st})
+        return len(states)
+
     # ------------------------------------------------------------------ Go harness
     def overlay(self, pkg):
         """pkg: path relative to the repository root ('.' for the root package)."""
